@@ -196,11 +196,15 @@ def renamed (host : Bool) (orig : BList) : BList :=
   let rest := orig.dropWhile (· != DOT)
   if host then
     match hyphenSuffix f with
-    | some (base, n) => base ++ [HYPHEN] ++ decimal (n + 1) ++ rest
+    | some (base, n) =>
+      -- a counter that cannot be counted up as a `u32` gets a fresh suffix (repair of D14)
+      if n ≥ U32_MAX then f ++ HYPHEN2 ++ rest else base ++ [HYPHEN] ++ decimal (n + 1) ++ rest
     | none => f ++ HYPHEN2 ++ rest
   else
     match parenSuffix f with
-    | some (base, n) => base ++ SP_LPAREN ++ decimal (n + 1) ++ [RPAREN] ++ rest
+    | some (base, n) =>
+      if n ≥ U32_MAX then f ++ PAREN2 ++ rest
+      else base ++ SP_LPAREN ++ decimal (n + 1) ++ [RPAREN] ++ rest
     | none => f ++ PAREN2 ++ rest
 
 /-- Monitor of a rename, on the name the real code returned.
